@@ -44,6 +44,11 @@ def clutter(rng, cfg):
     for cnt in (b"0000", b"9999", b"00000000000000000000001", b"99999999999999999999999", b"18446744073709551615", b"0007x"):
         pool.append(fixed + b"_" + infix + b".restart-" + cnt + sfx)
     pool.append(fixed + b"_" + infix + b".restart-123456789012345678901" + sfx + b".gz")
+    # names that pass the number filter (r + digit ..) and carry a multi-byte character around byte 20 of the infix, where
+    # the time-stamp namings cut the infix
+    for k in (17, 18, 19, 20):
+        pool.append(fixed + b"_r2" + b"0" * (k - 2) + "ü€".encode() + b"z" + sfx)
+    pool.append(fixed + b"_r2023-11-05_kopie_f" + "ür_jo".encode() + sfx)
     pool = [n for n in pool if n]      # (an empty name is no file name)
     return rng.sample(pool, rng.randint(1, min(5, len(pool))))
 
